@@ -8,6 +8,7 @@ oracle : props/asp_sem.py — brute-force stable models of the ORIGINAL program 
          model, externals' behaviour, per-priority costs equal up to a constant, priorities ascending; injectivity of the map."""
 from props import progs, asp_sem
 import subprocess, os
+from vlib import runner
 ID = "C02"
 MODULE = "PotasscoVerif.Props.C02"
 THEOREMS = ["PotasscoVerif.C02.C02_map_injective", "PotasscoVerif.C02.C02_map_stable", "PotasscoVerif.C02.C02_aux_fresh", "PotasscoVerif.C02.convert_steps",
@@ -196,7 +197,7 @@ def evaluate(ctx, cases):
         for (c, i), a_, s_ in zip(todo, aw, sw):
             if not isinstance(a_, str) or not isinstance(s_, str): continue
             ctx.dist["lpconvert"] += 1
-            r = subprocess.run([ctx.lpconvert[4096]] + (["-p"] if c["ext"] else []), input=bytes.fromhex(a_.replace("-", "")), capture_output=True, timeout=60)
+            r = subprocess.run([ctx.lpconvert[4096]] + (["-p"] if c["ext"] else []), input=bytes.fromhex(a_.replace("-", "")), capture_output=True, timeout=60, env=dict(__import__("os").environ, **runner.ASAN_ENV))
             jc = jsonable(c)
             if r.returncode < 0 or b"Sanitizer" in r.stderr or b"runtime error" in r.stderr:
                 ctx.fail("C02:lpconvert-crash", "lpconvert crashed / sanitizer report", jc, {"stderr": r.stderr.decode("latin-1")[-1200:], "rc": r.returncode}); continue
